@@ -41,6 +41,10 @@ func init() {
 		"bytes.IndexByte":    stubIndexByte,
 		"bytes.IndexFunc":    stubIndexFunc,
 		"bytes.Contains":     stubBytesContains,
+		"bytes.IndexAny":     stubIndexAny,
+		"strings.IndexAny":   stubIndexAny,
+		"bytes.ContainsAny":  stubContainsAny,
+		"strings.ContainsAny": stubContainsAny,
 		"bytes.ContainsRune": stubContainsRune,
 		"bytes.Index":        stubBytesIndex,
 		"bytes.Equal":        stubBytesEqual,
@@ -1104,4 +1108,39 @@ func stubGBK(decode bool) stubFn {
 		}
 		return []Value{ex.newByteSlice(b, 0, "gbk")}
 	}
+}
+
+// IndexAny / ContainsAny with a concrete ASCII character set: first byte that is a member.
+func anyOf(ex *Exec, args []Value) ([]*Term, func(i int) *Term) {
+	hay := termsOf(ex, args[0])
+	cs, ok := concreteStr(args[1].(StrV))
+	if !ok {
+		ex.unsupported("IndexAny with a symbolic character set")
+	}
+	for i := 0; i < len(cs); i++ {
+		if cs[i] >= 0x80 {
+			ex.unsupported("IndexAny with a non-ASCII character set")
+		}
+	}
+	return hay, func(i int) *Term {
+		r := ex.ts.ff
+		for k := 0; k < len(cs); k++ {
+			r = ex.ts.BOr(r, ex.ts.Eq(hay[i], ex.cbyte(cs[k])))
+		}
+		return r
+	}
+}
+
+func stubIndexAny(ex *Exec, fn *ssa.Function, args []Value) []Value {
+	hay, m := anyOf(ex, args)
+	return []Value{indexOf(ex, hay, m, len(hay))}
+}
+
+func stubContainsAny(ex *Exec, fn *ssa.Function, args []Value) []Value {
+	hay, m := anyOf(ex, args)
+	r := ex.ts.ff
+	for i := range hay {
+		r = ex.ts.BOr(r, m(i))
+	}
+	return []Value{r}
 }
